@@ -221,6 +221,9 @@ def run(ctx):
             ctx.violation("conforming-document-refused", case, "accepted", r.msg[:200])
         if not ok and r.tag == "ok":
             ctx.violation("non-conforming-document-accepted", case, "refused with an error", [f.hex() for f in r.fields])
+    from gen.util import model_over_texts
+    model_over_texts(ctx, docs, dumps, impl, "c08_compute_text %s", "C09text", "typeddata-vs-model(from text)",
+                     lambda i: dict(op="TypedData", cls=cases[i][2], document=short(docs[i], 420)), limit=600)
     ctx.sample(dict(op="TypedData", document=docs[5], conforming=cases[5][1]))
     ctx.sample(dict(op="TypedData", document=doc("int8", 128), conforming=False))
 
